@@ -114,7 +114,7 @@ private def mM : Chunk := ⟨"<UNKNOWN>", "things", some "0", 16, 26, rows3, non
 private def call0 : Call := ⟨16, 26, [rows3, rows3], [(16, 26), (16, 26)]⟩
 
 /-- `Plugin.iter` on the two loaded streams: one call `[16, 26)` with the three rows from both -/
-theorem two_target_instance_iter : iterModel [dS, dD] [[lS], [lD]] false = .ok [call0] := by
+theorem two_target_iter_witness : iterModel [dS, dD] [[lS], [lD]] false = .ok [call0] := by
   have hprep : z0.mapE (prepDep 26) = .ok zi := by decide +kernel
   have hretrim : retrim maxPasses 26 zi = .ok zi := by decide +kernel
   have hsup : mergeSuperrun [lS, lD] true = .ok [⟨"0", 16, 26⟩] := by
@@ -157,7 +157,7 @@ example : Selection.LawAbiding sS ∧ Selection.LawAbiding sD ∧ RealMode Mode.
 example : getArrayMulti ["time", "endtime", "id"] [(dS, sS), (dD, sD)] { timeRange := some (17, 21) } { mode := .touching }
     = getArray ["time", "endtime", "id"] sS { timeRange := some (17, 21) } { mode := .touching } :=
   multi_same_kind_partial _ dS sS [(dD, sD)] (17, 21) { mode := .touching } [[lS], [lD]] [call0] "0" 16 26
-    (by decide +kernel) (by decide) (Or.inr rfl) (by decide +kernel) (by decide +kernel) two_target_instance_iter
+    (by decide +kernel) (by decide) (Or.inr rfl) (by decide +kernel) (by decide +kernel) two_target_iter_witness
     (by decide +kernel) (by decide +kernel) (by decide +kernel) (by decide +kernel)
 
 end Strax.C10
